@@ -12,7 +12,7 @@ import heapq as _heapq
 
 from .builtins import enumerate as a_enumerate, zip as a_zip
 from ._core import aiter, awaitify, ScopedIter, borrow
-from ._typing import AnyIterable, ACloseable, LT, T
+from ._typing import AnyIterable, LT, T
 
 
 class _KeyIter(Generic[LT]):
@@ -152,8 +152,8 @@ async def merge(
                 yield item
     finally:
         for iterator in iterators:
-            if isinstance(iterator, ACloseable):
-                await iterator.aclose()
+            if hasattr(iterator, "aclose"):
+                await iterator.aclose()  # type: ignore[attr-defined]
 
 
 class ReverseLT(Generic[LT]):
